@@ -1,9 +1,20 @@
+#[cfg(not(feature = "verif-hooks"))]
 use std::{
     collections::HashMap,
     fmt::Debug,
     hash::Hash,
     io::Read,
     path::{Path, PathBuf},
+};
+#[cfg(feature = "verif-hooks")]
+use {
+    crate::verif::{HashMap, VerifNew},
+    std::{
+        fmt::Debug,
+        hash::Hash,
+        io::Read,
+        path::{Path, PathBuf},
+    },
 };
 
 use crate::ast;
@@ -150,7 +161,10 @@ impl Parser<PathBuf> {
     ///
     /// If a file with the same path already exists, the old file will be replaced.
     pub fn add_file<P: AsRef<Path>>(&mut self, path: P) -> std::io::Result<()> {
+        #[cfg(not(feature = "verif-hooks"))]
         let mut file = std::fs::File::open(path.as_ref())?;
+        #[cfg(feature = "verif-hooks")]
+        let mut file = crate::verif::open(path.as_ref())?;
         let mut buffer = String::new();
         file.read_to_string(&mut buffer)?;
 
